@@ -328,17 +328,72 @@ fn section_constructors(ctx: &mut Ctx) {
                 ensure!(ctx, r.is_err(), s, "Coord({}).add({}) = {:?} but the sum is off the board", i, d, r);
             }
         }
+        let shift_case = |ctx: &mut Ctx, df: isize, dr: isize| {
+            ctx.states += 1;
+            ctx.add(SHIFT, 1);
+            let (nf, nr) = (fidx(i) as i128 + df as i128, ridx(i) as i128 + dr as i128);
+            let want = if (0..8).contains(&nf) && (0..8).contains(&nr) { Some((nr * 8 + nf) as usize) } else { None };
+            let got = guarded(|| Coord::from_index(i).shift(df, dr).map(|c| c.index()));
+            ensure!(ctx, got == Ok(want), s, "Coord({}).shift({}, {}) = {:?}, geometry says {:?}", i, df, dr, got, want);
+        };
         for df in -8isize..=8 {
             for dr in -8isize..=8 {
-                ctx.states += 1;
-                ctx.add(SHIFT, 1);
-                let (nf, nr) = (fidx(i) as isize + df, ridx(i) as isize + dr);
-                let want = if (0..8).contains(&nf) && (0..8).contains(&nr) { Some((nr * 8 + nf) as usize) } else { None };
-                let got = Coord::from_index(i).shift(df, dr).map(|c| c.index());
-                ensure!(ctx, got == want, s, "Coord({}).shift({}, {}) = {:?}, geometry says {:?}", i, df, dr, got, want);
+                shift_case(ctx, df, dr);
+            }
+        }
+        // far deltas: every s * 2^k + e (k = 3..=63, |e| <= 9, s = +-1) that fits an isize, and the
+        // two extremes, against every near delta of the other coordinate; powers of two and
+        // extremes against each other
+        let far = far_deltas();
+        for &big in far {
+            for small in -8isize..=8 {
+                shift_case(ctx, big, small);
+                shift_case(ctx, small, big);
+            }
+        }
+        let pow: Vec<isize> = far.iter().cloned().filter(|d| d.unsigned_abs().is_power_of_two() || *d == isize::MAX || *d == isize::MIN).collect();
+        for &a in &pow {
+            for &b in &pow {
+                shift_case(ctx, a, b);
+            }
+        }
+        // Coord::add with the far deltas: never a square
+        for &d in far {
+            ctx.states += 1;
+            ctx.add(CTOR, 1);
+            let want = i as i128 + d as i128;
+            let r = guarded(|| Coord::from_index(i).add(d).index());
+            if (0..64).contains(&want) {
+                ensure!(ctx, r == Ok(want as usize), s, "Coord({}).add({}) = {:?}", i, d, r);
+            } else {
+                ctx.add(REJ, 1);
+                ensure!(ctx, r.is_err(), s, "Coord({}).add({}) = {:?} but the sum is off the board", i, d, r);
             }
         }
     }
+}
+
+/// s * 2^k + e for k in 3..=63, e in -9..=9, s in {+1, -1}, as far as it fits an isize; plus the extremes
+fn far_deltas() -> &'static Vec<isize> {
+    static D: std::sync::OnceLock<Vec<isize>> = std::sync::OnceLock::new();
+    D.get_or_init(|| {
+        let mut v: Vec<isize> = vec![isize::MIN, isize::MAX];
+        for k in 3..=63u32 {
+            for e in -9i128..=9 {
+                for sgn in [1i128, -1] {
+                    let x = sgn * (1i128 << k) + e;
+                    if let Ok(d) = isize::try_from(x) {
+                        if !(-8..=8).contains(&d) {
+                            v.push(d);
+                        }
+                    }
+                }
+            }
+        }
+        v.sort();
+        v.dedup();
+        v
+    })
 }
 
 fn set_of(b: Bitboard) -> BTreeSet<u8> {
